@@ -29,7 +29,7 @@ ASSUMPTIONS = ['nested interpreter runs are summarised: a body writes only byte-
 EXPLANATION = ('P1: one instruction of every opcode from a symbolic state with a recording cache model; the write/delete log '
                'contains only byte-string keys (plus the control flag), every embedder-supplied string-keyed entry is the same '
                'object afterwards, including on raising paths; only the documented readers read string keys')
-MUST_REACH = ['wrote_bytes_key', 'wrote_returned', 'read_str_key', 'raise', 'ok']
+MUST_REACH = ['wrote_bytes_key', 'wrote_returned', 'read_str_key', 'raise', 'ok', 'read_mutable_value']
 
 STR_READERS = {'OP_GET_VALUE', 'OP_GET_MESSAGE', 'OP_CHECK_TIMESTAMP', 'OP_CHECK_TIMESTAMP_VERIFY', 'OP_CHECK_TEMPLATE',
                'OP_CHECK_TEMPLATE_VERIFY', 'OP_CHECK_SIG', 'OP_CHECK_SIG_VERIFY', 'OP_CHECK_MULTISIG',
@@ -53,7 +53,7 @@ def h_step(c, pkg, op, lens, ntape=6):
             continue
         c.check('only_bytes_keys_written', False, kind=kind, key_type=ktype, key=key)
     # embedder entries unchanged (same objects), still present
-    for k in ('sigfield1', 'sigfield2', 'timestamp', 'custom'):
+    for k in ('sigfield1', 'sigfield2', 'timestamp', 'custom', 'blob'):
         present = any(kk == k for kk, _ in cache.entries if isinstance(kk, str))
         c.check('embedder_entry_still_present', present, key=k)
     vals = {kk: v for kk, v in cache.entries if isinstance(kk, str)}
@@ -61,21 +61,36 @@ def h_step(c, pkg, op, lens, ntape=6):
     c.check('sigfield2_unchanged', vals.get('sigfield2') is c.e.inputs['sigfield2'])
     c.check('timestamp_unchanged', vals.get('timestamp') is c.e.inputs['timestamp'])
     c.check('custom_unchanged', vals.get('custom') == 'text')
-    extra = [kk for kk in vals if kk not in ('sigfield1', 'sigfield2', 'timestamp', 'custom', 'returned')]
+    # the embedder's mutable value: same content, and never handed to the script by reference (a stack item that
+    # aliases it could be altered in place by a later instruction) - every stack item is an immutable bytes value
+    blob = vals.get('blob')
+    c.check('mutable_embedder_value_unchanged', type(blob) is bytearray and bytes(blob) == vmstep.BLOB)
+    for it in vmstep.stack_items(st.stack):
+        c.check('stack_item_does_not_alias_embedder_value', it is not blob, op=name)
+        c.check('stack_items_are_immutable_bytes', isinstance(it, (bytes, SymBytes)) or hasattr(it, '_sx_view'),
+                op=name, got=type(it).__name__)
+    extra = [kk for kk in vals if kk not in ('sigfield1', 'sigfield2', 'timestamp', 'custom', 'blob', 'returned')]
     c.check('no_new_string_keys', not extra, keys=extra)
     # readers of string keys
     for kind, ktype, key in cache.rlog:
         if ktype == 'str' and key != 'returned':
             c.reach('read_str_key')
+            if key == 'blob':
+                c.reach('read_mutable_value')
             c.check('only_documented_readers_read_string_keys', name in STR_READERS, op=name, key=key)
     vmstep.witness_observables(c, op, st, r, summ)
 
 
 def r_step(inputs, params, obligation):
-    if params['op'] in vmstep.NESTING_OPS:
-        return {'reproduced': False, 'error': 'replay of summarised nested runs not implemented'}
     res = vmstep.concrete_generic_step(inputs, params)
     cache = res['cache']
+    if obligation in ('stack_item_does_not_alias_embedder_value', 'stack_items_are_immutable_bytes',
+                      'mutable_embedder_value_unchanged'):
+        items = list(res['stack'].deque)
+        rep = {'stack_item_does_not_alias_embedder_value': any(x is cache.get('blob') for x in items),
+               'stack_items_are_immutable_bytes': any(type(x) is not bytes for x in items),
+               'mutable_embedder_value_unchanged': cache.get('blob') != bytearray(vmstep.BLOB)}[obligation]
+        return {'reproduced': bool(rep), 'stack_types': [type(x).__name__ for x in items], 'outcome': repr(res['r'])[:200]}
     bad_w = [(k, t, repr(key)) for k, t, key in cache.wlog if t != 'bytes' and not (t == 'str' and key == 'returned')]
     changed = [k for k, v in res['pre_str'].items() if k not in cache or cache[k] is not v]
     new = [k for k in cache if isinstance(k, str) and k not in res['pre_str'] and k != 'returned']
